@@ -89,7 +89,24 @@ def regen_consts():
         return {'consts_rederived': False, 'error': out[-400:]}
 
 
+def gen_coqproject():
+    """_CoqProject lists every .v under Base, Gen, Model, Proofs, Properties and Extract/Keep.v
+    (the per-property extraction files Extract/Pnn.v are compiled in build/ocaml/<id>/)."""
+    files = []
+    for d in ('Base', 'Gen', 'Model', 'Proofs', 'Properties'):
+        dd = os.path.join(COQ, d)
+        if os.path.isdir(dd):
+            files += [d + '/' + f for f in sorted(os.listdir(dd)) if f.endswith('.v')]
+    files.append('Extract/Keep.v')
+    txt = ('-Q . SV\n-arg -w -arg -notation-overridden,-deprecated-hint-without-locality,-ambiguous-paths\n'
+           + '\n'.join(files) + '\n')
+    cp = os.path.join(COQ, '_CoqProject')
+    if not os.path.exists(cp) or open(cp).read() != txt:
+        open(cp, 'w').write(txt)
+
+
 def coq_makefile():
+    gen_coqproject()
     mk = os.path.join(COQ, 'Makefile')
     cp = os.path.join(COQ, '_CoqProject')
     if not os.path.exists(mk) or os.path.getmtime(mk) < os.path.getmtime(cp):
@@ -206,45 +223,61 @@ def newest_mtime(paths):
     return m
 
 
-def build_model_cli(force=False):
-    """extract the model and compile model_cli if any model source is newer.  (ok, log)"""
-    os.makedirs(OCAML_BUILD, exist_ok=True)
-    exe = os.path.join(OCAML_BUILD, 'model_cli')
+COQW = '-w -notation-overridden,-deprecated-hint-without-locality,-ambiguous-paths,-extraction'
+
+
+def model_dir(pid):
+    return os.path.join(OCAML_BUILD, pid)
+
+
+def model_cli_path(pid):
+    return os.path.join(model_dir(pid), 'model_cli')
+
+
+def build_model_cli(pid, force=False):
+    """extract coq/Extract/P<nn>.v and compile build/ocaml/<pid>/model_cli if a source is newer.  (ok, log)"""
+    d = model_dir(pid)
+    os.makedirs(d, exist_ok=True)
+    exe = model_cli_path(pid)
+    pv = os.path.join(COQ, 'Extract', 'P%s.v' % pid[1:])
+    drv = os.path.join(OCAML_SRC, pid.lower() + '.ml')
     srcs = [os.path.join(COQ, 'Base'), os.path.join(COQ, 'Model'), os.path.join(COQ, 'Gen'),
-            os.path.join(COQ, 'Extract'), OCAML_SRC]
+            os.path.join(COQ, 'Extract', 'Keep.v'), pv, drv, os.path.join(OCAML_SRC, 'svutil.ml')]
     if not force and os.path.exists(exe) and os.path.getmtime(exe) >= newest_mtime(srcs):
         return True, 'up to date'
-    tg = ' '.join('Model/' + f + 'o' for f in sorted(os.listdir(os.path.join(COQ, 'Model'))) if f.endswith('.v'))
-    ok, log = coq_build(tg)
+    deps = []
+    for m in re.finditer(r'From\s+SV\s+Require\s+Import\s+([^.]*(?:\.[A-Za-z_]\w*)*[^.]*)\.\s', open(pv).read()):
+        for name in m.group(1).split():
+            deps.append(name.replace('.', '/') + '.vo')
+    ok, log = coq_build(' '.join(deps))
     if not ok:
         return False, log[-3000:]
-    rc, out = sh('timeout 600 coqc -Q %s SV -w -notation-overridden,-deprecated-hint-without-locality,-ambiguous-paths,-extraction %s/Extract/Extract.v' % (COQ, COQ),
-                 cwd=OCAML_BUILD, timeout=630)
+    rc, out = sh('timeout 600 coqc -Q %s SV %s %s' % (COQ, COQW, pv), cwd=d, timeout=630)
     if rc != 0:
         return False, out[-3000:]
-    sh('cp %s/*.ml %s/' % (OCAML_SRC, OCAML_BUILD))
+    sh('cp %s %s %s/' % (os.path.join(OCAML_SRC, 'svutil.ml'), drv, d))
     rc, out = sh('timeout 600 ocamlfind ocamlopt -w -a -rectypes -thread -package coq-core.kernel -linkpkg '
-                 'model.mli model.ml svutil.ml driver.ml -o model_cli.new && mv model_cli.new model_cli',
-                 cwd=OCAML_BUILD, timeout=630)
+                 'model.mli model.ml svutil.ml %s.ml -o model_cli.new && mv model_cli.new model_cli' % pid.lower(),
+                 cwd=d, timeout=630)
     if rc != 0:
         return False, out[-3000:]
     return True, out[-500:]
 
 
-def build_harness(profile='debug'):
-    """cargo build of spx against /repo's working tree (hooks enabled).  (ok, log)"""
+def build_harness(pid, profile='debug'):
+    """cargo build of harness bin c<nn> against /repo's working tree (hooks enabled).  (ok, log)"""
     sh('cp %s/Cargo.lock %s/Cargo.lock' % (REPO, HARNESS))
     env = dict(ENV, RUSTFLAGS='--cfg %s -Awarnings' % GUARD)
-    cmd = 'timeout 900 cargo build --offline' + (' --release' if profile == 'release' else '')
+    cmd = 'timeout 900 cargo build --offline --bin %s' % pid.lower() + (' --release' if profile == 'release' else '')
     rc, out = sh(cmd, cwd=HARNESS, timeout=930, env=env)
     return rc == 0, out[-3000:]
 
 
-def spx_path(profile='debug'):
-    return os.path.join(TARGET, profile, 'spx')
+def spx_path(pid, profile='debug'):
+    return os.path.join(TARGET, profile, pid.lower())
 
 
-def run_lines(exe, prop, lines, timeout=600, shards=NPROC):
+def run_lines(exe, lines, timeout=600, shards=NPROC):
     """feed lines to `exe prop`, one result line per input line; sharded."""
     if not lines:
         return []
@@ -252,7 +285,7 @@ def run_lines(exe, prop, lines, timeout=600, shards=NPROC):
     chunks = [lines[i::n] for i in range(n)]
 
     def one(chunk):
-        rc, out = sh([exe, prop], inp='\n'.join(chunk) + '\n', timeout=timeout)
+        rc, out = sh([exe], inp='\n'.join(chunk) + '\n', timeout=timeout)
         res = out.split('\n')
         if res and res[-1] == '':
             res.pop()
@@ -260,7 +293,7 @@ def run_lines(exe, prop, lines, timeout=600, shards=NPROC):
             # crashed / aborted mid-way: rerun line by line to attribute
             res = []
             for l in chunk:
-                rc1, o1 = sh([exe, prop], inp=l + '\n', timeout=60)
+                rc1, o1 = sh([exe], inp=l + '\n', timeout=60)
                 o1 = o1.strip('\n').split('\n')
                 res.append(o1[0] if rc1 == 0 and len(o1) == 1 and o1[0] else 'abort rc=%d' % rc1)
         return res
@@ -321,9 +354,9 @@ def run_check(prop, argv):
     proof_ok = pf['ok'] and not hits
     if hits:
         notes.append('forbidden constructs: ' + '; '.join(hits[:5]))
-    mok, mlog = build_model_cli()
+    mok, mlog = build_model_cli(pid)
     profiles = getattr(prop, 'PROFILES', {'quick': ['debug'], 'thorough': ['debug', 'release']})[tier]
-    hok, hlog = build_harness(profiles[0])
+    hok, hlog = build_harness(pid, profiles[0])
 
     cases = []
     if replay:
@@ -347,13 +380,13 @@ def run_check(prop, argv):
         if not (hok and mok and cases):
             break
         if profile != profiles[0]:
-            ok2, log2 = build_harness(profile)
+            ok2, log2 = build_harness(pid, profile)
             if not ok2:
                 hok, hlog = ok2, log2
                 break
-        impl = run_lines(spx_path(profile), pid, lines)
+        impl = run_lines(spx_path(pid, profile), lines)
         if not model:
-            model = run_lines(os.path.join(OCAML_BUILD, 'model_cli'), pid, lines)
+            model = run_lines(model_cli_path(pid), lines)
         for c, i, m in zip(cases, impl, model):
             evaluations += 1
             if profile == profiles[0]:
